@@ -1088,12 +1088,9 @@ static void DoCreate(const Type::Ptr& type, const std::string& name, bool ioe, c
 	Emit(head + " | now=" + std::to_string(now) + " parts=" + parts + " cfg=" + cfg + " ok=" + ok + " parents=" + parents +
 		" children=" + children + " file=" + file + " attrs=" + oattrs + " " + State());
 
-	if (zombieParent && obj) {
-		/* containment of F-C17f: the object hangs on a parent which is no longer registered; take it away again */
-		obj.reset();
-		l_SkipLine = "delete " + tn + " " + NameTok(name) + " 1";
-		DoDelete(type, name, true, false);
-	}
+	/* F-C17f is repaired (edf9289): a create on a deleted service must FAIL. Nothing is cleaned up here any more - an object
+	 * created on a dead parent stays, is reported (spec clause dangling_parent) and whatever follows from it is observed. */
+	(void) zombieParent;
 }
 
 static void DoDelete(const Type::Ptr& type, const std::string& name, bool cascade, bool viaHttp)
